@@ -8,6 +8,7 @@
 #include "gsim.h"
 #include "rt_ctl.h"
 
+#include <sched.h>
 #include <sys/personality.h>
 #include <time.h>
 #include <unistd.h>
@@ -258,6 +259,14 @@ int main(int argc, char** argv)
             fprintf(stderr, "unknown argument %s\n", a.c_str());
             return 2;
         }
+    }
+    if (!getenv("GSIM_NO_PIN") && search) {
+        // one core per worker process: baton hand-offs become same-core switches
+        long ncpu = sysconf(_SC_NPROCESSORS_ONLN);
+        cpu_set_t set;
+        CPU_ZERO(&set);
+        CPU_SET((int)(offset % (uint64_t)(ncpu > 0 ? ncpu : 1)), &set);
+        sched_setaffinity(0, sizeof set, &set);
     }
     const gsim::Workload* w =
         wlname ? gsim_ctl::find_workload(wlname) : gsim_ctl::first_workload();
